@@ -30,6 +30,9 @@ var typeByName = map[string]reflect.Type{
 	"T1": reflect.TypeOf(T1{}), "T2": reflect.TypeOf(T2{}), "T3": reflect.TypeOf(T3{}),
 	"T4": reflect.TypeOf(T4{}), "T5": reflect.TypeOf(T5{}), "T6": reflect.TypeOf(T6{}),
 	"I1": reflect.TypeOf((*I1)(nil)).Elem(), "I2": reflect.TypeOf((*I2)(nil)).Elem(),
+	// U1 is an unnamed struct type: every Tk is assignable to it (and back) without being
+	// identical to it, so it tells type identity from mere assignability.
+	"U1": reflect.TypeOf(struct{ ID int }{}),
 }
 
 // concrete type used when a function must produce a value of an interface type
@@ -116,6 +119,10 @@ type FuncSpec struct {
 	Fails  bool    `json:"fails"`
 	Once   bool    `json:"once"`
 	NilOut bool    `json:"nilOut"` // ptr form only: return a nil struct pointer
+	// FailAs selects the shape of the error a failing body returns: "" / "ptr" a fresh *FailErr,
+	// "typednil" a nil *FailErr inside the error interface (still a non-nil error),
+	// "unsat" a fresh *argmapper.ErrArgumentUnsatisfied, "wrapunsat" an error wrapping one.
+	FailAs string `json:"failAs"`
 }
 
 // GenSpec is a converter generator: for every value vertex whose type is From
